@@ -27,7 +27,7 @@ CLAIMED: dict[str, tuple[str, str, str, str, str]] = {
         "unchanged operands, operator tables/std dunders/mixin agree, reflected fallback uses the right table and "
         "swaps operands. Results of tracing are not decided.",
         "Trusted: ast parser; std dunder implementations are recognised by decorator (extend_type/custom_type/struct).",
-        "table/forwarding agreement lint over the syntax tree (sibling cross-check)",
+        "table/forwarding agreement lint over the syntax tree (sibling cross-check) + abstract interpretation of the reflected-operator wrapper and of the three builtin mocks on tokens of every traced class and on plain values",
         "DESIGN §5 C21",
     ),
     "C22": (
@@ -63,7 +63,7 @@ CLAIMED: dict[str, tuple[str, str, str, str, str]] = {
         "never prunes. Not decided: the set of paths of the built CFG.",
         "Trusted: ast parser, enum.Flag semantics as modelled in gsa/absint/flagabs.py (a in b <=> a&b==a), the mini "
         "interpreter's fragment (outside it the obligation is UNDECIDED, not a verdict).",
-        "finite-domain abstract evaluation over flag sets + traversal-completeness and must-call rules on the CFG",
+        "finite-domain abstract evaluation over flag sets (call acceptance, dagger guards, derived function types) + abstract interpretation of the whole unitary visitor on token trees with probes at positions outside the syntax tree + must-call rules on the CFG",
         "DESIGN §5 C24",
     ),
     "C33": (
@@ -123,7 +123,7 @@ CLAIMED: dict[str, tuple[str, str, str, str, str]] = {
         "uses the matching signedness/width; every constant entry point reaches the check. Observed run-time values are not decided.",
         "Trusted: ast parser, gsa/absint/pyeval.py; exactness argument: the code is comparison-only against folded constants, "
         "all of which (and their neighbours) are probed.",
-        "abstract evaluation of the range-check functions on a boundary-complete probe set + entry-point must-call",
+        "abstract evaluation of the range-check functions on a boundary-complete probe set + entry-point must-call + interpretation of the comprehension desugaring (every sub-expression reaches the folding builder)",
         "DESIGN §5 C17",
     ),
     "C09": (
@@ -209,7 +209,7 @@ CLAIMED: dict[str, tuple[str, str, str, str, str]] = {
         "a def-use rule for the callers: in every loop that checks parts one by one and merges their solutions, the expected "
         "type of the next part reads the accumulated substitution. Most-generality and unbounded nesting are not decided.",
         "Trusted: ast parser, gsa/absint/pyeval.py, the 40-line reference unifier in rules/C12.py. Bounded: shapes up to depth 2.",
-        "bounded-exhaustive abstract evaluation of the unifier against a reference + exhaustiveness table",
+        "bounded-exhaustive abstract evaluation of the unifier against a reference + exhaustiveness table + abstract interpretation of the callers (argument checking, generic function values, type transformation) on triangular solutions",
         "DESIGN §5 C12",
     ),
     "C11": (
@@ -223,7 +223,7 @@ CLAIMED: dict[str, tuple[str, str, str, str, str]] = {
         "the store or an engine cache already holds. Equality of the HUGRs of two runs is not decided.",
         "Trusted: ast parser; writes are recognised syntactically (attribute/subscript stores, mutating container methods, "
         "next() on counters, register_* calls); aliasing of a persistent object through a local variable is not tracked.",
-        "MOD-style who-may-write enumeration against a reviewed table + must-call ordering on the CFG",
+        "MOD-style who-may-write enumeration against a reviewed table + must-call ordering and finally-pairing on the CFG + abstract evaluation of the variable order on counter-suffixed names",
         "DESIGN §5 C11",
     ),
     "C08": (
@@ -237,7 +237,7 @@ CLAIMED: dict[str, tuple[str, str, str, str, str]] = {
         "not decided.",
         "Trusted: ast parser; lexical guard extraction (if/elif/else, early continue/raise) as the condition for reaching a raise; "
         "diagnostic-flavour guards are treated existentially.",
-        "guard truth tables + def-before-use/dominance on the CFG + dataflow-framework obligations (shared with C09)",
+        "abstract interpretation of check_bb, check_cfg (work list on model CFGs with dead blocks), the CFG builder and the expression builder on token trees + guard truth tables + dataflow-framework obligations (shared with C09)",
         "DESIGN §5 C08",
     ),
     "C06": (
@@ -250,7 +250,7 @@ CLAIMED: dict[str, tuple[str, str, str, str, str]] = {
         "its result; the borrow-shadow check covers every place in an assignment target. Soundness/completeness of the "
         "place-based liveness argument as a whole is not decided.",
         "Trusted: ast parser; lexical guard extraction (if/elif/else, early exits, walrus) as the exact condition for reaching a raise.",
-        "guard truth tables + must-call pairing on the CFG + sibling traversal + small-case abstract evaluation",
+        "abstract interpretation of the per-block visitors (places, calls, nested definitions, comprehensions, assignment targets) and of check_cfg_linearity on model CFGs with the real Scope methods + guard truth tables + must-call pairing on the CFG",
         "DESIGN §5 C06",
     ),
     "C07": (
@@ -294,7 +294,7 @@ CLAIMED: dict[str, tuple[str, str, str, str, str]] = {
         "every copy/drop class in two source orders): what the block passes to successor i is exactly sort_vars(output_rows[i]), "
         "the order in which that successor declares its inputs.",
         "Trusted: ast parser, gsa/absint/pyeval.py; the HUGR builder is modelled as a recorder of (op, inputs, outputs).",
-        "stage-to-stage set inclusion (emitted node classes vs handlers) + truth table + abstract interpretation of place wiring",
+        "stage-to-stage set inclusion (emitted node classes vs handlers) + abstract interpretation of compile_bb / sort_vars (outputs vs successor inputs, total variable order) and of place wiring",
         "DESIGN §5 C01",
     ),
 }
